@@ -106,6 +106,11 @@ pub struct CollSpec {
 pub struct WorldSpec {
 	pub leaves: Vec<LeafDecl>,
 	pub colls: Vec<CollSpec>,
+	/// placement of the world's heap allocations (bit 0 of byte k mod len:
+	/// allocation k goes to the top of the region instead of the bottom);
+	/// empty = every allocation at ascending addresses
+	#[serde(default)]
+	pub layout: Vec<u8>,
 }
 
 /// A target a thread can operate on.
@@ -885,6 +890,10 @@ impl World {
 	}
 
 	fn build_with(spec: &WorldSpec, key: ThreadKey) -> World {
+		crate::quarantine::with_bump(&spec.layout, || Self::build_in_place(spec, key))
+	}
+
+	fn build_in_place(spec: &WorldSpec, key: ThreadKey) -> World {
 		let mut key = key;
 		let mut arena = Arena::new();
 		let slots: Vec<Slot> =
